@@ -94,11 +94,16 @@ pub fn verdict(m: &[u8], ctx: &AppCtx) -> AppVerdict {
     if !all_in_a {
         return AppVerdict::Silent("C14", "dns-question-not-in-a");
     }
-    if i != m.len() {
+    if i != m.len() && !ctx.sip.is_v4() {
         return AppVerdict::Unspecified("dns-trailing-bytes".into());
     }
     if !ctx.sip.is_v4() {
         return AppVerdict::Unspecified("dns-over-ipv6".into());
+    }
+    if i != m.len() {
+        // bytes after the last question the header announces: if the message is answered at all,
+        // the answer is the one to the query the counts delimit
+        return AppVerdict::IfAnswered(Req::Dns(DnsQuery { id, flags, qsection: m[12..i].to_vec(), names }), "dns-trailing-bytes".into());
     }
     AppVerdict::Answer(Req::Dns(DnsQuery {
         id,
